@@ -71,8 +71,19 @@ pub fn midi_twin(case: &StreamCase, st: &mut Stats) -> Result<bool, Failure> {
     let mut a = MonoMidiReceiver::new(case.channel);
     let mut b = MonoMidiReceiver::new(case.channel.min(15));
     for (i, &x) in case.bytes.iter().enumerate() {
-        a.parse(x);
-        b.parse(x);
+        // a panic is C06's / C17's business; for C20 only a DIFFERENCE between the two receivers counts
+        let (pa, pb) = (catch(|| a.parse(x)), catch(|| b.parse(x)));
+        if pa.is_err() || pb.is_err() {
+            if pa.is_err() != pb.is_err() {
+                return Err(Failure::new(
+                    "C20.channel_acts_as_15",
+                    i,
+                    format!("byte {} ({:#04x}): only one of MonoMidiReceiver::new({}) / new({}) panicked", i, x, case.channel, case.channel.min(15)),
+                ));
+            }
+            st.count("midi_twin_streams_cut_by_identical_panic", 1);
+            return Ok(false);
+        }
         if observe(&a) != observe(&b) {
             return Err(Failure::new(
                 "C20.channel_acts_as_15",
